@@ -57,6 +57,20 @@ def find_witness(pid, obligation):
             if w.get("kind") == "ds_ops":
                 w["fn"] = fn.split("::")[1]
                 return w
+        # generic search for a panicking entry-point call (degenerate inputs), used for body / C03 obligations
+        if pid == "C03" or obligation.get("kind") == "body":
+            ok, err = build_witness()
+            if not ok:
+                return None
+            texts = ["", " ", "\t\n", "-", "--", "- -", "'", ".", "a-", "-a", "\u00a0", "\u0301", "o", "zero-", "un-", "point", "zero point"]
+            for code in ["en", "fr", "es", "pt", "it", "de", "nl"]:
+                for t in texts:
+                    for f in ["text2digits", "replace"]:
+                        w = {"kind": "call", "fn": f, "lang": code, "text": t, "threshold": 0.0, "expect": {"no_panic": True}}
+                        p = subprocess.run([wbin("t2n_call"), json.dumps(w)], capture_output=True, text=True, timeout=20)
+                        if p.returncode == 1:
+                            w["what"] = p.stdout.strip().replace("\n", " | ")
+                            return w
     except Exception as e:
         return None
     return None
